@@ -618,7 +618,8 @@ class HealSparseMap(object):
             # At the risk of premature optimization, we only call the special function
             # if the number of pixels is above some threshold.
             pixels_to_set = np.sum(pixels[:, 1] - pixels[:, 0])
-            if pixels_to_set > PIXEL_RANGE_THRESHOLD:
+            if pixels_to_set > PIXEL_RANGE_THRESHOLD and not self._is_view:
+                # (A view takes the explicit path below, which refuses to set new pixels.)
                 return self._update_values_pixel_ranges(pixels, _values[0], operation, no_append)
             else:
                 _pix = hpg.pixel_ranges_to_pixels(pixels)
